@@ -52,9 +52,14 @@ def check_value(cname, Y, h_post, sigma, scale):
         return False, float("inf"), float("inf")
     if len(Y.data) != 1:
         return False, float("inf"), float("inf")
-    got = gamma.project(cname, Y)
+    try:
+        got = gamma.project(cname, Y)          # for a twist: the motion it generates (evaluated by the library)
+    except Exception:  # noqa: BLE001  the result cannot even be read back: as wrong as a result can be
+        return False, float("inf"), float("inf")
     exp = gamma.expected(cname, h_post, sigma)
     d = gamma.distance(cname, got, exp)
+    if not (d == d):                            # NaN
+        d = float("inf")
     tol = TOL[cname] * max(1.0, scale)
     vres = 0.0
     if cname in ("SO2", "SE2", "SO3", "SE3", "UnitQuaternion"):
